@@ -352,6 +352,9 @@ pub mod cmp {
     pub fn max(a: u32, b: u32) -> (r: u32)
         ensures r == (if a >= b { a } else { b })
     { if a >= b { a } else { b } }
+    pub fn min(a: u32, b: u32) -> (r: u32)
+        ensures r == (if a <= b { a } else { b })
+    { if a <= b { a } else { b } }
 }
 
 pub open spec fn spec_size_of_u32() -> usize { 4 }
